@@ -21,8 +21,8 @@ RULE = ("case = document built from value shapes {bare defined key, bare undefin
 ASSUMPTIONS = ["unique entry keys and unique field keys per entry (collisions are C09's subject)"]
 MIN = {"field_value_model": (30000, 300000), "metadata_model": (10000, 100000), "strings_unchanged": (10000, 100000)}
 
-DEFS = [("s", "{X}"), ("s", '"Y y"'), ("S", "{Z}"), ("t", "s"), ("t", "{a} # {b}"), ("s", "12"), ("s", "t"), ("u", "u")]
-NAMES = ["s", "S", "t", "u"]
+DEFS = [("s", "{X}"), ("s", '"Y y"'), ("S", "{Z}"), ("t", "s"), ("t", "{a} # {b}"), ("s", "12"), ("s", "t"), ("u", "u"), ("st", "{W}"), ("k-2", "{P}"), ("a:b.c+d", "{Q}")]
+NAMES = ["s", "S", "t", "u", "st", "k-2", "a:b.c+d"]
 
 
 def values():
@@ -33,7 +33,7 @@ def values():
 
 
 def exhaustive(tier):
-    return ("one entry with 1-2 fields over 17 value shapes x ordered lists of 0-2 definitions from 8 (incl. chains, a 2-cycle and a self-reference) x each definition placed "
+    return ("one entry with 1-2 fields over 29 value shapes x ordered lists of 0-2 definitions from 11 (incl. punctuation in macro names, chains, a 2-cycle and a self-reference) x each definition placed "
             "before or after the entry")
 
 
